@@ -26,6 +26,7 @@ def canary_trace(reset):
     tr = engine.trace(env)
     tr["flushes"] = [f for f in tr["flushes"] if f[0] == "canary"]
     tr["steps"] = sum(1 for e in env.log if e[0] == "step")
+    tr["foreign_flushes"] = sum(1 for e in env.events if e[0] == "before" and e[1] != "canary")
     tr["active_in_body"] = [m for c, m in env.viol if c.startswith("C08")]
     return tr, env
 
@@ -73,9 +74,14 @@ def check(case, ctx):
             D.options.MAX_TASK_STACK_SIZE = engine._OPTION_DEFAULTS["MAX_TASK_STACK_SIZE"]
         # the client owning the harness batch kinds discards what an abandoned computation left pending
         # (leftover *batches* are not the scheduler's concern; a stale batch would be flushed while the canary waits)
+        # ... except after the RuntimeError that stops runaway recursion in a yield-only program: there asynq itself
+        # resets the scheduler, so nothing of the dead computation may be flushed during the next one
+        runaway = limit is not None and env.yield_only and env.outcome[:2] == ["escaped", "RuntimeError"]
         for b in list(env.batches):      # cancel() switches the active batch, which creates a new (empty) one
-            if not b.is_flushed():
+            if not b.is_flushed() and not runaway:
                 b.cancel()
+        if runaway:
+            ctx.label("runaway-with-pending-batches", any(not b.is_flushed() and b.items for b in env.batches))
         engine.finalize_abandoned(env)
         fk = failure_kind(prog, env, limit)
         if fk:
